@@ -4,10 +4,15 @@
 
    Store:  val[k]  NIL | V(k,n) a value | PH(c,i) the placeholder "rueidisid:.." of incarnation i of client c
            alive   the liveness keys that exist (SET id "" PX ClientTTL, refreshed every ClientTTL/2)
-   One Get at a time per client, one step per server round trip / blocking point of Get:
+   Callers Procs (goroutines) are mapped to clients by ClientOf: callers of one client share c.id, c.waits, the client
+   side cache and the connection. One Get at a time per caller, with a loader (Begin) or without one (BeginNil: fn == nil),
+   one step per server round trip / blocking point of Get:
 
-     Start      register(key); DoCache GET key   (from the client side cache or from the server, then tracked)
-     Keepalive  c.id == ""  ->  new id, SET id "" PX ttl
+     Start      register(key); DoCache GET key   (from the client side cache or from the server, then tracked);
+                fn == nil and the key is absent: Get returns the nil error
+     Keepalive  c.id != "" -> that id ; c.id == "" -> new id, SET id "" PX ttl   (registration is its own step:
+     KaAdopt    under c.mu: c.id still "" -> c.id = id, go refresh(id) ; else the winner's id is adopted (the marker
+                just written stays behind, nobody refreshes it)
      Lock       SET key id NX GET PX ttl   (or the acquireLock script: same effect)
      LoadOk / LoadFail   the loader returns
      SetKey     setkey script: if GET key == id then SET key val PX ttl   (Get returns val either way)
@@ -20,13 +25,15 @@
    cache flushed, onInvalidation(nil): all waiters woken, the client drops its id and deletes the old liveness key).
 
    Negative switches: BugReturnPh (the placeholder is returned when the wait times out), BugNoLiveness (a foreign lock is
-   deleted without looking at the holder's liveness key), BugDelNoCompare (delkey without the value comparison).      *)
+   deleted without looking at the holder's liveness key), BugDelNoCompare (delkey without the value comparison), BugNoAdopt (the loser of a registration race keeps its own id,
+   which nobody refreshes), BugNilFastPath (fn == nil returns whatever the first read shows), BugStealPlainDel (the lock of
+   a dead holder is released with an unconditional DEL).      *)
 EXTENDS Integers, FiniteSets, Sequences, TLC
 
-CONSTANTS Clients, Keys, MaxInc, MaxLoads,
+CONSTANTS Clients, Procs, ClientOf, NilProcs, LoadProcs, Keys, MaxInc, MaxLoads,
           MaxDel, MaxLockExpire, MaxValExpire, MaxDie, MaxDisc, MaxTimeout, MaxLateRefresh, MaxLoadFail,
           AsyncPush,
-          BugReturnPh, BugNoLiveness, BugDelNoCompare,
+          BugReturnPh, BugNoLiveness, BugDelNoCompare, BugNoAdopt, BugNilFastPath, BugStealPlainDel,
           Record
 
 NIL == [t |-> "nil", a |-> 0, b |-> 0]
@@ -35,53 +42,65 @@ PH(c, i) == [t |-> "ph", a |-> c, b |-> i]
 NK(k) == [t |-> "k", a |-> k, b |-> 0]              \* names the server tracks: cache keys ...
 NI(c, i) == [t |-> "id", a |-> c, b |-> i]          \* ... and liveness keys
 Incs == 1..MaxInc
+Cl(p) == ClientOf[p]
+Of(c) == {p \in Procs : ClientOf[p] = c}
 Names == {NK(k) : k \in Keys} \cup {NI(c, i) : c \in Clients, i \in Incs}
 NONE == [t |-> "none", a |-> 0, b |-> 0]
 EXISTS == [t |-> "v", a |-> 0, b |-> 0]             \* what GET of a liveness key returns ("")
 
 VARIABLES val, alive,
-          pc,        \* idle start keepalive lock load setkey unlock phcheck steal wait dead
-          tgt,       \* key of the current Get
+          pc,        \* per caller: idle start keepalive kaadopt lock load setkey unlock phcheck steal wait dead
+          tgt,       \* key of the caller's current Get
+          fnnil,     \* the current Get has no loader
           ph,        \* placeholder the Get is looking at
-          inc,       \* current incarnation of the client (0: c.id == "")
+          inc,       \* per client: c.id, the current incarnation (0: c.id == ""); the refresh goroutine serves this id only
           lid,       \* the id the current Get obtained from keepalive (a local variable of Get)
-          nextInc,   \* incarnations used so far
+          cand,      \* the id the caller generated and wrote in keepalive, not yet adopted
+          nextInc,   \* per client: ids generated so far
           myv,       \* value the loader returned
           cache,     \* cache[c][name]: client side cache entry or NONE
           trk,       \* trk[name]: connections the server will notify
           regd,      \* regd[c]: names with an open channel in c.waits
-          gotInv,    \* gotInv[c]: channels captured by the current Get that have been closed
+          gotInv,    \* gotInv[p]: channels captured by the caller's current Get that have been closed
           inflight,  \* pushes on their way (AsyncPush)
           dead, nloads, stored,
-          holderLost, \* holderLost[c]: the lock c took was legitimately lost (expiry, Del, its liveness key vanished)
+          holderLost, \* holderLost[p]: the lock p took was legitimately lost (expiry, Del, its liveness key vanished)
           bad,        \* violated property names
           budget,     \* what the environment has spent
           hist
 
-vars == <<val, alive, pc, tgt, ph, inc, lid, nextInc, myv, cache, trk, regd, gotInv, inflight, dead, nloads, stored,
-          holderLost, bad, budget, hist>>
+vars == <<val, alive, pc, tgt, fnnil, ph, inc, lid, cand, nextInc, myv, cache, trk, regd, gotInv, inflight, dead, nloads,
+          stored, holderLost, bad, budget, hist>>
 
 Rec(r) == hist' = IF Record THEN Append(hist, r) ELSE hist
+R4(a, p, k, r, s) == Rec([a |-> a, c |-> Cl(p), k |-> k, p |-> p, r |-> r, s |-> s])   \* r: what the Get returns at this step
+R(a, p, k) == R4(a, p, k, "", "")
+RE4(a, c, k, s) == Rec([a |-> a, c |-> c, k |-> k, p |-> 0, r |-> "", s |-> s])
+RE(a, c, k) == RE4(a, c, k, "")
 Spend(what) == budget' = [budget EXCEPT ![what] = @ + 1]
 Limit == [del |-> MaxDel, lockexp |-> MaxLockExpire, valexp |-> MaxValExpire, die |-> MaxDie, disc |-> MaxDisc,
           timeout |-> MaxTimeout, late |-> MaxLateRefresh, loadfail |-> MaxLoadFail]
 Can(what) == budget[what] < Limit[what]
+Holding == {"load", "setkey", "unlock"}
 
 Init == /\ val = [k \in Keys |-> NIL] /\ alive = {}
-        /\ pc = [c \in Clients |-> "idle"] /\ tgt = [c \in Clients |-> CHOOSE k \in Keys : TRUE]
-        /\ ph = [c \in Clients |-> NIL] /\ inc = [c \in Clients |-> 0] /\ lid = [c \in Clients |-> 0]
+        /\ pc = [p \in Procs |-> "idle"] /\ tgt = [p \in Procs |-> CHOOSE k \in Keys : TRUE]
+        /\ fnnil = [p \in Procs |-> FALSE]
+        /\ ph = [p \in Procs |-> NIL] /\ inc = [c \in Clients |-> 0] /\ lid = [p \in Procs |-> 0]
+        /\ cand = [p \in Procs |-> 0]
         /\ nextInc = [c \in Clients |-> 0]
-        /\ myv = [c \in Clients |-> NIL]
+        /\ myv = [p \in Procs |-> NIL]
         /\ cache = [c \in Clients |-> [n \in Names |-> NONE]] /\ trk = [n \in Names |-> {}]
-        /\ regd = [c \in Clients |-> {}] /\ gotInv = [c \in Clients |-> {}] /\ inflight = [c \in Clients |-> {}]
+        /\ regd = [c \in Clients |-> {}] /\ gotInv = [p \in Procs |-> {}] /\ inflight = [c \in Clients |-> {}]
         /\ dead = {} /\ nloads = 0 /\ stored = [k \in Keys |-> {}]
-        /\ holderLost = [c \in Clients |-> FALSE] /\ bad = {}
+        /\ holderLost = [p \in Procs |-> FALSE] /\ bad = {}
         /\ budget = [w \in DOMAIN Limit |-> 0] /\ hist = <<>>
 
 \* ------------------------------------------------------------------------------------------------ server side
-\* onInvalidation(name) at client c: the cache entry goes, a registered channel is closed and forgotten
+\* onInvalidation(name) at client c: the cache entry goes, a registered channel is closed (every caller of c that captured
+\* it sees that) and forgotten
 ArriveCache(ca, S, n) == [c \in Clients |-> IF c \in S THEN [ca[c] EXCEPT ![n] = NONE] ELSE ca[c]]
-ArriveInv(gi, S, n) == [c \in Clients |-> IF c \in S /\ n \in regd[c] THEN gi[c] \cup {n} ELSE gi[c]]
+ArriveInv(gi, S, n) == [p \in Procs |-> IF Cl(p) \in S /\ n \in regd[Cl(p)] THEN gi[p] \cup {n} ELSE gi[p]]
 ArriveReg(rg, S, n) == [c \in Clients |-> IF c \in S THEN rg[c] \ {n} ELSE rg[c]]
 \* a write to name n: everybody who read it with DoCache is notified once and forgotten
 Touch(n, ca, rg, gi) ==
@@ -96,191 +115,224 @@ Deliver(c, n) == /\ AsyncPush /\ n \in inflight[c] /\ c \notin dead
                  /\ inflight' = [inflight EXCEPT ![c] = @ \ {n}]
                  /\ cache' = ArriveCache(cache, {c}, n) /\ gotInv' = ArriveInv(gotInv, {c}, n)
                  /\ regd' = ArriveReg(regd, {c}, n)
-                 /\ UNCHANGED <<val, alive, pc, tgt, ph, inc, lid, nextInc, myv, trk, dead, nloads, stored, holderLost, bad, budget, hist>>
+                 /\ UNCHANGED <<val, alive, pc, tgt, fnnil, ph, inc, lid, cand, nextInc, myv, trk, dead, nloads, stored, holderLost, bad, budget, hist>>
 
-\* the lock PH(c,i) on key k disappears / the liveness key of (c,i) disappears: the holder is excused from now on
-LoseLock(v) == [c \in Clients |-> holderLost[c] \/ (v.t = "ph" /\ v.a = c /\ pc[c] \in {"load", "setkey", "unlock"} /\ ph[c] = v)]
-LoseId(c, i) == [d \in Clients |-> holderLost[d] \/ (d = c /\ pc[c] \in {"load", "setkey", "unlock"} /\ ph[c] = PH(c, i))]
+\* the lock v on key k disappears / the liveness key of (c,i) disappears: the holder is excused from now on
+LoseLock(k, v) == [p \in Procs |-> holderLost[p] \/ (v.t = "ph" /\ pc[p] \in Holding /\ tgt[p] = k /\ ph[p] = v)]
+LoseId(c, i) == [p \in Procs |-> holderLost[p] \/ (Cl(p) = c /\ pc[p] \in Holding /\ ph[p] = PH(c, i))]
 
 \* ------------------------------------------------------------------------------------------------ Get
-Live(c) == c \notin dead
-Me(c) == PH(c, lid[c])
+Live(p) == Cl(p) \notin dead
+Me(p) == PH(Cl(p), lid[p])
 
 \* register(name): an existing open channel is reused, a closed one replaced; either way nothing has fired yet
-Register(rg, gi, c, n) == <<[rg EXCEPT ![c] = @ \cup {n}], [gi EXCEPT ![c] = @ \ {n}]>>
+Register(rg, gi, p, n) == <<[rg EXCEPT ![Cl(p)] = @ \cup {n}], [gi EXCEPT ![p] = @ \ {n}]>>
 
-Finish(c, v, kind) ==        \* Get returns
-   /\ pc' = [pc EXCEPT ![c] = "idle"]
+Finish(p, v, kind) ==        \* Get returns
+   /\ pc' = [pc EXCEPT ![p] = "idle"]
    /\ bad' = bad \cup (IF kind = "val" /\ v.t = "ph" THEN {"NeverReturnsPlaceholder"} ELSE {})
-                 \cup (IF kind = "val" /\ v.t = "v" /\ v \notin stored[tgt[c]] /\ v # myv[c] THEN {"ValueFromLoaderOrStore"} ELSE {})
-                 \cup (IF kind = "val" /\ v.t = "v" /\ v.a # tgt[c] THEN {"ValueFromLoaderOrStore"} ELSE {})
+                 \cup (IF kind = "val" /\ v.t = "v" /\ v \notin stored[tgt[p]] /\ v # myv[p] THEN {"ValueFromLoaderOrStore"} ELSE {})
+                 \cup (IF kind = "val" /\ v.t = "v" /\ v.a # tgt[p] THEN {"ValueFromLoaderOrStore"} ELSE {})
+                 \* without an error the caller holds a value; the nil error only without a loader
+                 \cup (IF kind = "val" /\ v.t = "nil" THEN {"ValueFromLoaderOrStore"} ELSE {})
+                 \cup (IF kind = "nil" /\ ~fnnil[p] THEN {"ValueFromLoaderOrStore"} ELSE {})
 
-Begin(c, k) == /\ Live(c) /\ pc[c] = "idle" /\ nloads < MaxLoads
-               /\ pc' = [pc EXCEPT ![c] = "start"] /\ tgt' = [tgt EXCEPT ![c] = k]
-               /\ myv' = [myv EXCEPT ![c] = NIL] /\ ph' = [ph EXCEPT ![c] = NIL]
-               /\ holderLost' = [holderLost EXCEPT ![c] = FALSE]
-               /\ Rec([a |-> "Get", c |-> c, k |-> k])
-               /\ UNCHANGED <<val, alive, inc, lid, nextInc, cache, trk, regd, gotInv, inflight, dead, nloads, stored, bad, budget>>
+BeginAny(p, k, f) ==
+               /\ Live(p) /\ pc[p] = "idle" /\ nloads < MaxLoads
+               /\ pc' = [pc EXCEPT ![p] = "start"] /\ tgt' = [tgt EXCEPT ![p] = k] /\ fnnil' = [fnnil EXCEPT ![p] = f]
+               /\ myv' = [myv EXCEPT ![p] = NIL] /\ ph' = [ph EXCEPT ![p] = NIL]
+               /\ holderLost' = [holderLost EXCEPT ![p] = FALSE]
+               /\ R(IF f THEN "GetNil" ELSE "Get", p, k)
+               /\ UNCHANGED <<val, alive, inc, lid, cand, nextInc, cache, trk, regd, gotInv, inflight, dead, nloads, stored, bad, budget>>
+Begin(p, k) == p \in LoadProcs /\ BeginAny(p, k, FALSE)
+BeginNil(p, k) == p \in NilProcs /\ BeginAny(p, k, TRUE)
 
 \* what the value v read for the key means for the Get
-Route(c, v) == IF v.t = "nil" THEN "keepalive" ELSE IF v.t = "ph" THEN "phcheck" ELSE "ret"
+Route(p, v) == IF v.t = "nil" THEN (IF fnnil[p] THEN "retnil" ELSE "keepalive")
+               ELSE IF v.t = "ph" THEN (IF fnnil[p] /\ BugNilFastPath THEN "ret" ELSE "phcheck") ELSE "ret"
 
-Start(c) ==
-   LET k == tgt[c]
+Start(p) ==
+   LET c == Cl(p)
+       k == tgt[p]
        n == NK(k)
-       r == Register(regd, gotInv, c, n)
+       r == Register(regd, gotInv, p, n)
        hit == cache[c][n] # NONE
        v == IF hit THEN cache[c][n] ELSE val[k]
-   IN /\ Live(c) /\ pc[c] = "start"
+   IN /\ Live(p) /\ pc[p] = "start"
       /\ regd' = r[1] /\ gotInv' = r[2]
       /\ IF hit THEN UNCHANGED <<cache, trk>>
                 ELSE /\ cache' = [cache EXCEPT ![c][n] = v] /\ trk' = [trk EXCEPT ![n] = @ \cup {c}]
-      /\ ph' = [ph EXCEPT ![c] = IF v.t = "ph" THEN v ELSE @]
-      /\ IF Route(c, v) = "ret" THEN Finish(c, v, "val")
-                                ELSE pc' = [pc EXCEPT ![c] = Route(c, v)] /\ UNCHANGED bad
-      /\ Rec([a |-> "Read", c |-> c, k |-> k])
-      /\ UNCHANGED <<val, alive, tgt, inc, lid, nextInc, myv, inflight, dead, nloads, stored, holderLost, budget>>
+      /\ ph' = [ph EXCEPT ![p] = IF v.t = "ph" THEN v ELSE @]
+      /\ CASE Route(p, v) = "ret" -> Finish(p, v, "val")
+           [] Route(p, v) = "retnil" -> Finish(p, NIL, "nil")
+           [] OTHER -> pc' = [pc EXCEPT ![p] = Route(p, v)] /\ UNCHANGED bad
+      /\ R4("Read", p, k, CASE Route(p, v) = "ret" -> "val" [] Route(p, v) = "retnil" -> "nil" [] OTHER -> "",
+            IF v.t = "ph" THEN (IF v.a \in dead THEN "phdead" ELSE "phlive") ELSE v.t)
+      /\ UNCHANGED <<val, alive, tgt, fnnil, inc, lid, cand, nextInc, myv, inflight, dead, nloads, stored, holderLost, budget>>
 
-Keepalive(c) ==
-   /\ Live(c) /\ pc[c] = "keepalive"
+\* keepalive(), first half: c.id read under c.mu; "" -> a fresh id is written with SET id "" PX ttl
+Keepalive(p) ==
+   LET c == Cl(p) IN
+   /\ Live(p) /\ pc[p] = "keepalive"
    /\ IF inc[c] = 0
         THEN /\ nextInc[c] < MaxInc
-             /\ nextInc' = [nextInc EXCEPT ![c] = @ + 1] /\ inc' = [inc EXCEPT ![c] = nextInc[c] + 1]
-             /\ lid' = [lid EXCEPT ![c] = nextInc[c] + 1]
+             /\ nextInc' = [nextInc EXCEPT ![c] = @ + 1]
+             /\ cand' = [cand EXCEPT ![p] = nextInc[c] + 1]
              /\ alive' = alive \cup {NI(c, nextInc[c] + 1)}
-        ELSE lid' = [lid EXCEPT ![c] = inc[c]] /\ UNCHANGED <<nextInc, inc, alive>>
-   /\ pc' = [pc EXCEPT ![c] = "lock"]
-   /\ Rec([a |-> "Keepalive", c |-> c, k |-> tgt[c]])
-   /\ UNCHANGED <<val, tgt, ph, myv, cache, trk, regd, gotInv, inflight, dead, nloads, stored, holderLost, bad, budget>>
+             /\ pc' = [pc EXCEPT ![p] = "kaadopt"]
+             /\ UNCHANGED lid
+        ELSE /\ lid' = [lid EXCEPT ![p] = inc[c]] /\ UNCHANGED <<nextInc, cand, alive>>
+             /\ pc' = [pc EXCEPT ![p] = "lock"]
+   /\ R("Keepalive", p, tgt[p])
+   /\ UNCHANGED <<val, tgt, fnnil, ph, inc, myv, cache, trk, regd, gotInv, inflight, dead, nloads, stored, holderLost, bad, budget>>
+\* second half, under c.mu again: the first caller's id becomes c.id and gets the refresh goroutine, a later one adopts it
+KaAdopt(p) ==
+   LET c == Cl(p) IN
+   /\ Live(p) /\ pc[p] = "kaadopt"
+   /\ IF inc[c] = 0 THEN inc' = [inc EXCEPT ![c] = cand[p]] /\ lid' = [lid EXCEPT ![p] = cand[p]]
+                    ELSE UNCHANGED inc /\ lid' = [lid EXCEPT ![p] = IF BugNoAdopt THEN cand[p] ELSE inc[c]]
+   /\ pc' = [pc EXCEPT ![p] = "lock"]
+   /\ R("KaAdopt", p, tgt[p])
+   /\ UNCHANGED <<val, alive, tgt, fnnil, ph, cand, nextInc, myv, cache, trk, regd, gotInv, inflight, dead, nloads, stored, holderLost, bad, budget>>
 
 \* SET key id NX GET PX ttl
-Lock(c) ==
-   LET k == tgt[c] IN
-   /\ Live(c) /\ pc[c] = "lock"
+Lock(p) ==
+   LET k == tgt[p]
+       c == Cl(p)
+       lost == NI(c, lid[p]) \notin alive
+   IN
+   /\ Live(p) /\ pc[p] = "lock"
    /\ IF val[k] = NIL
-        THEN /\ val' = [val EXCEPT ![k] = Me(c)] /\ Touch(NK(k), cache, regd, gotInv)
-             /\ pc' = [pc EXCEPT ![c] = "load"] /\ ph' = [ph EXCEPT ![c] = Me(c)]
+        THEN /\ val' = [val EXCEPT ![k] = Me(p)] /\ Touch(NK(k), cache, regd, gotInv)
+             /\ pc' = [pc EXCEPT ![p] = "load"] /\ ph' = [ph EXCEPT ![p] = Me(p)]
              /\ nloads' = nloads + 1
              \* a second loader while the first holder is alive and its lock was never legitimately lost
-             /\ bad' = bad \cup (IF \E d \in Clients \ {c} : pc[d] \in {"load", "setkey"} /\ tgt[d] = k /\ ~holderLost[d] /\ d \notin dead
+             /\ bad' = bad \cup (IF \E d \in Procs \ {p} : pc[d] \in {"load", "setkey"} /\ tgt[d] = k /\ ~holderLost[d] /\ Live(d)
                                  THEN {"LoaderOnceWhileHolderAlive"} ELSE {})
-             /\ Rec([a |-> "Locked", c |-> c, k |-> k])
+                           \* the lock names an id that exists but is not the one the client's refresh goroutine serves
+                           \cup (IF ~lost /\ lid[p] # inc[c] THEN {"LockNamesRefreshedId"} ELSE {})
+             /\ R("Locked", p, k)
         ELSE /\ UNCHANGED <<val, nloads>> /\ NoTouch
-             /\ ph' = [ph EXCEPT ![c] = IF val[k].t = "ph" THEN val[k] ELSE @]
-             /\ IF val[k].t = "ph" THEN pc' = [pc EXCEPT ![c] = "phcheck"] /\ UNCHANGED bad
-                                   ELSE Finish(c, val[k], "val")
-             /\ Rec([a |-> "LockBusy", c |-> c, k |-> k])
+             /\ ph' = [ph EXCEPT ![p] = IF val[k].t = "ph" THEN val[k] ELSE @]
+             /\ IF val[k].t = "ph" THEN pc' = [pc EXCEPT ![p] = "phcheck"] /\ UNCHANGED bad
+                                   ELSE Finish(p, val[k], "val")
+             /\ R4("LockBusy", p, k, IF val[k].t = "ph" THEN "" ELSE "val", "")
    \* a lock taken with an id whose liveness key is already gone (disconnect between keepalive and lock) is free game
-   /\ holderLost' = [holderLost EXCEPT ![c] = IF val[k] = NIL THEN NI(c, lid[c]) \notin alive ELSE @]
-   /\ UNCHANGED <<alive, tgt, inc, lid, nextInc, myv, dead, stored, budget>>
+   /\ holderLost' = [holderLost EXCEPT ![p] = IF val[k] = NIL THEN lost ELSE @]
+   /\ UNCHANGED <<alive, tgt, fnnil, inc, lid, cand, nextInc, myv, dead, stored, budget>>
 
-LoadOk(c) == /\ Live(c) /\ pc[c] = "load"
-             /\ myv' = [myv EXCEPT ![c] = V(tgt[c], nloads)] /\ pc' = [pc EXCEPT ![c] = "setkey"]
-             /\ Rec([a |-> "LoadOk", c |-> c, k |-> tgt[c]])
-             /\ UNCHANGED <<val, alive, tgt, ph, inc, lid, nextInc, cache, trk, regd, gotInv, inflight, dead, nloads, stored, holderLost, bad, budget>>
-LoadFail(c) == /\ Live(c) /\ pc[c] = "load" /\ Can("loadfail") /\ Spend("loadfail")
-               /\ pc' = [pc EXCEPT ![c] = "unlock"]
-               /\ Rec([a |-> "LoadFail", c |-> c, k |-> tgt[c]])
-               /\ UNCHANGED <<val, alive, tgt, ph, inc, lid, nextInc, myv, cache, trk, regd, gotInv, inflight, dead, nloads, stored, holderLost, bad>>
+LoadOk(p) == /\ Live(p) /\ pc[p] = "load"
+             /\ myv' = [myv EXCEPT ![p] = V(tgt[p], nloads)] /\ pc' = [pc EXCEPT ![p] = "setkey"]
+             /\ R("LoadOk", p, tgt[p])
+             /\ UNCHANGED <<val, alive, tgt, fnnil, ph, inc, lid, cand, nextInc, cache, trk, regd, gotInv, inflight, dead, nloads, stored, holderLost, bad, budget>>
+LoadFail(p) == /\ Live(p) /\ pc[p] = "load" /\ Can("loadfail") /\ Spend("loadfail")
+               /\ pc' = [pc EXCEPT ![p] = "unlock"]
+               /\ R("LoadFail", p, tgt[p])
+               /\ UNCHANGED <<val, alive, tgt, fnnil, ph, inc, lid, cand, nextInc, myv, cache, trk, regd, gotInv, inflight, dead, nloads, stored, holderLost, bad>>
 
 \* if GET key == id then SET key val PX ttl else 0 ; Get returns the loaded value in both cases
-SetKey(c) ==
-   LET k == tgt[c] IN
-   /\ Live(c) /\ pc[c] = "setkey"
-   /\ IF val[k] = ph[c] THEN /\ val' = [val EXCEPT ![k] = myv[c]] /\ Touch(NK(k), cache, regd, gotInv)
-                             /\ stored' = [stored EXCEPT ![k] = @ \cup {myv[c]}]
+SetKey(p) ==
+   LET k == tgt[p] IN
+   /\ Live(p) /\ pc[p] = "setkey"
+   /\ IF val[k] = ph[p] THEN /\ val' = [val EXCEPT ![k] = myv[p]] /\ Touch(NK(k), cache, regd, gotInv)
+                             /\ stored' = [stored EXCEPT ![k] = @ \cup {myv[p]}]
                         ELSE UNCHANGED <<val, stored>> /\ NoTouch
-   /\ Finish(c, myv[c], "val")
-   /\ Rec([a |-> "SetKey", c |-> c, k |-> k])
-   /\ UNCHANGED <<alive, tgt, ph, inc, lid, nextInc, myv, dead, nloads, holderLost, budget>>
+   /\ Finish(p, myv[p], "val")
+   /\ R4("SetKey", p, k, "val", "")
+   /\ UNCHANGED <<alive, tgt, fnnil, ph, inc, lid, cand, nextInc, myv, dead, nloads, holderLost, budget>>
 
-\* delkey script: if GET key == arg then DEL
-DelIf(k, arg) == IF val[k] = arg \/ (BugDelNoCompare /\ val[k] # NIL)
+\* delkey script: if GET key == arg then DEL ; uncond: the comparison is missing
+DelIf(k, arg, uncond) ==
+                 IF val[k] = arg \/ (uncond /\ val[k] # NIL)
                    THEN /\ val' = [val EXCEPT ![k] = NIL] /\ Touch(NK(k), cache, regd, gotInv)
-                        /\ holderLost' = IF val[k] = arg THEN holderLost ELSE LoseLock(val[k])   \* (never: see DelSafe)
+                        /\ UNCHANGED holderLost        \* a lock removed by a missing comparison does not excuse its holder
                    ELSE UNCHANGED <<val, holderLost>> /\ NoTouch
-Unlock(c) == /\ Live(c) /\ pc[c] = "unlock"
-             /\ DelIf(tgt[c], ph[c])
-             /\ pc' = [pc EXCEPT ![c] = "idle"]
-             /\ bad' = bad \cup (IF val[tgt[c]] # ph[c] /\ val[tgt[c]] # NIL /\ BugDelNoCompare THEN {"DelOnlyOwn"} ELSE {})
-             /\ Rec([a |-> "Unlock", c |-> c, k |-> tgt[c]])
-             /\ UNCHANGED <<alive, tgt, ph, inc, lid, nextInc, myv, dead, nloads, stored, budget>>
+Unlock(p) == /\ Live(p) /\ pc[p] = "unlock"
+             /\ DelIf(tgt[p], ph[p], BugDelNoCompare)
+             /\ pc' = [pc EXCEPT ![p] = "idle"]
+             /\ bad' = bad \cup (IF val[tgt[p]] # ph[p] /\ val[tgt[p]] # NIL /\ BugDelNoCompare THEN {"DelOnlyOwn"} ELSE {})
+             /\ R("Unlock", p, tgt[p])
+             /\ UNCHANGED <<alive, tgt, fnnil, ph, inc, lid, cand, nextInc, myv, dead, nloads, stored, budget>>
 
 \* register(ph); DoCache GET ph
-PhCheck(c) ==
-   LET n == NI(ph[c].a, ph[c].b)
-       r == Register(regd, gotInv, c, n)
+PhCheck(p) ==
+   LET c == Cl(p)
+       n == NI(ph[p].a, ph[p].b)
+       r == Register(regd, gotInv, p, n)
        hit == cache[c][n] # NONE
        v == IF hit THEN cache[c][n] ELSE (IF n \in alive THEN EXISTS ELSE NIL)
-   IN /\ Live(c) /\ pc[c] = "phcheck"
+   IN /\ Live(p) /\ pc[p] = "phcheck"
       /\ regd' = r[1] /\ gotInv' = r[2]
       /\ IF hit THEN UNCHANGED <<cache, trk>>
                 ELSE /\ cache' = [cache EXCEPT ![c][n] = v] /\ trk' = [trk EXCEPT ![n] = @ \cup {c}]
-      /\ pc' = [pc EXCEPT ![c] = IF v = NIL \/ BugNoLiveness THEN "steal" ELSE "wait"]
-      /\ Rec([a |-> "PhCheck", c |-> c, k |-> tgt[c]])
-      /\ UNCHANGED <<val, alive, tgt, ph, inc, lid, nextInc, myv, inflight, dead, nloads, stored, holderLost, bad, budget>>
+      /\ pc' = [pc EXCEPT ![p] = IF v = NIL \/ BugNoLiveness THEN "steal" ELSE "wait"]
+      /\ R(IF v = NIL \/ BugNoLiveness THEN "PhGone" ELSE "PhCheck", p, tgt[p])
+      /\ UNCHANGED <<val, alive, tgt, fnnil, ph, inc, lid, cand, nextInc, myv, inflight, dead, nloads, stored, holderLost, bad, budget>>
 
 \* "the client who held the lock has gone": delkey(key, ph) ; goto retry
-Steal(c) ==
-   LET k == tgt[c]
-       n == NI(ph[c].a, ph[c].b)
-   IN /\ Live(c) /\ pc[c] = "steal"
-      /\ DelIf(k, ph[c])
+Steal(p) ==
+   LET k == tgt[p]
+       un == BugDelNoCompare \/ BugStealPlainDel
+   IN /\ Live(p) /\ pc[p] = "steal"
+      /\ DelIf(k, ph[p], un)
       \* a lock is taken away from a holder whose liveness key exists and always existed
-      /\ bad' = bad \cup (IF val[k].t = "ph" /\ (val[k] = ph[c] \/ BugDelNoCompare) /\ val[k].a \notin dead
-                             /\ NI(val[k].a, val[k].b) \in alive /\ ~holderLost[val[k].a]
-                             /\ pc[val[k].a] \in {"load", "setkey", "unlock"} /\ ph[val[k].a] = val[k]
+      /\ bad' = bad \cup (IF val[k].t = "ph" /\ (val[k] = ph[p] \/ un) /\ val[k].a \notin dead
+                             /\ NI(val[k].a, val[k].b) \in alive
+                             /\ \E d \in Procs : Cl(d) = val[k].a /\ ~holderLost[d] /\ pc[d] \in Holding /\ tgt[d] = k /\ ph[d] = val[k]
                           THEN {"LockStolenFromLiveHolder"} ELSE {})
-                  \cup (IF val[k] # ph[c] /\ val[k] # NIL /\ BugDelNoCompare THEN {"DelOnlyOwn"} ELSE {})
-      /\ pc' = [pc EXCEPT ![c] = "start"]
-      /\ Rec([a |-> "Steal", c |-> c, k |-> k])
-      /\ UNCHANGED <<alive, tgt, ph, inc, lid, nextInc, myv, dead, nloads, stored, budget>>
+                  \cup (IF val[k] # ph[p] /\ val[k] # NIL /\ un THEN {"DelOnlyOwn"} ELSE {})
+      /\ pc' = [pc EXCEPT ![p] = "start"]
+      /\ R("Steal", p, k)
+      /\ UNCHANGED <<alive, tgt, fnnil, ph, inc, lid, cand, nextInc, myv, dead, nloads, stored, budget>>
 
-Woken(c) == /\ Live(c) /\ pc[c] = "wait"
-            /\ (NK(tgt[c]) \in gotInv[c] \/ NI(ph[c].a, ph[c].b) \in gotInv[c])
-            /\ pc' = [pc EXCEPT ![c] = "start"]
-            /\ Rec([a |-> "Woken", c |-> c, k |-> tgt[c]])
-            /\ UNCHANGED <<val, alive, tgt, ph, inc, lid, nextInc, myv, cache, trk, regd, gotInv, inflight, dead, nloads, stored, holderLost, bad, budget>>
-Timeout(c) == /\ Live(c) /\ pc[c] = "wait" /\ Can("timeout") /\ Spend("timeout")
-              /\ IF BugReturnPh THEN Finish(c, ph[c], "val") ELSE Finish(c, NIL, "err")
-              /\ Rec([a |-> "Timeout", c |-> c, k |-> tgt[c]])
-              /\ UNCHANGED <<val, alive, tgt, ph, inc, lid, nextInc, myv, cache, trk, regd, gotInv, inflight, dead, nloads, stored, holderLost>>
+Woken(p) == /\ Live(p) /\ pc[p] = "wait"
+            /\ (NK(tgt[p]) \in gotInv[p] \/ NI(ph[p].a, ph[p].b) \in gotInv[p])
+            /\ pc' = [pc EXCEPT ![p] = "start"]
+            /\ R("Woken", p, tgt[p])
+            /\ UNCHANGED <<val, alive, tgt, fnnil, ph, inc, lid, cand, nextInc, myv, cache, trk, regd, gotInv, inflight, dead, nloads, stored, holderLost, bad, budget>>
+Timeout(p) == /\ Live(p) /\ pc[p] = "wait" /\ Can("timeout") /\ Spend("timeout")
+              /\ IF BugReturnPh THEN Finish(p, ph[p], "val") ELSE Finish(p, NIL, "err")
+              /\ R4("Timeout", p, tgt[p], "err", "")
+              /\ UNCHANGED <<val, alive, tgt, fnnil, ph, inc, lid, cand, nextInc, myv, cache, trk, regd, gotInv, inflight, dead, nloads, stored, holderLost>>
 
-\* refresh goroutine: SET id "" PX ttl (re-creates an expired key)
-Refresh(c) == /\ Live(c) /\ inc[c] # 0
+\* refresh goroutine of the id that is c.id: SET id "" PX ttl (re-creates an expired key)
+Refresh(c) == /\ c \notin dead /\ inc[c] # 0
               /\ alive' = alive \cup {NI(c, inc[c])} /\ Touch(NI(c, inc[c]), cache, regd, gotInv)
-              /\ Rec([a |-> "Refresh", c |-> c, k |-> 0])
-              /\ UNCHANGED <<val, pc, tgt, ph, inc, lid, nextInc, myv, dead, nloads, stored, holderLost, bad, budget>>
+              /\ RE("Refresh", c, 0)
+              /\ UNCHANGED <<val, pc, tgt, fnnil, ph, inc, lid, cand, nextInc, myv, dead, nloads, stored, holderLost, bad, budget>>
 
 \* ------------------------------------------------------------------------------------------------ environment
 UserDel(k) == /\ Can("del") /\ Spend("del") /\ val[k] # NIL
               /\ val' = [val EXCEPT ![k] = NIL] /\ Touch(NK(k), cache, regd, gotInv)
-              /\ holderLost' = LoseLock(val[k])
-              /\ Rec([a |-> "Del", c |-> 0, k |-> k])
-              /\ UNCHANGED <<alive, pc, tgt, ph, inc, lid, nextInc, myv, dead, nloads, stored, bad>>
+              /\ holderLost' = LoseLock(k, val[k])
+              /\ RE("Del", 0, k)
+              /\ UNCHANGED <<alive, pc, tgt, fnnil, ph, inc, lid, cand, nextInc, myv, dead, nloads, stored, bad>>
 KeyExpire(k) == /\ val[k] # NIL
                 /\ IF val[k].t = "ph" THEN Can("lockexp") /\ Spend("lockexp") ELSE Can("valexp") /\ Spend("valexp")
                 /\ val' = [val EXCEPT ![k] = NIL] /\ Touch(NK(k), cache, regd, gotInv)
-                /\ holderLost' = LoseLock(val[k])
-                /\ Rec([a |-> "KeyExpire", c |-> 0, k |-> k])
-                /\ UNCHANGED <<alive, pc, tgt, ph, inc, lid, nextInc, myv, dead, nloads, stored, bad>>
-\* the liveness key of a dead client (or of a live one whose refresh is late) expires
+                /\ holderLost' = LoseLock(k, val[k])
+                /\ RE("KeyExpire", 0, k)
+                /\ UNCHANGED <<alive, pc, tgt, fnnil, ph, inc, lid, cand, nextInc, myv, dead, nloads, stored, bad>>
+\* a liveness key expires: that of a dead client; that of a live one whose refresh is late (bounded; the holder is
+\* excused); or one that no refresh goroutine serves (written by the loser of a registration race: not an excuse)
 IdExpire(c, i) == /\ NI(c, i) \in alive
-                  /\ IF c \in dead \/ inc[c] # i THEN UNCHANGED budget ELSE Can("late") /\ Spend("late")
+                  \* (an id just written and about to be adopted counts as the client's own: its early expiry is a late refresh)
+                  /\ IF c \in dead \/ (inc[c] # i /\ ~\E p \in Of(c) : pc[p] = "kaadopt" /\ cand[p] = i)
+                       THEN UNCHANGED budget ELSE Can("late") /\ Spend("late")
                   /\ alive' = alive \ {NI(c, i)} /\ Touch(NI(c, i), cache, regd, gotInv)
-                  /\ holderLost' = LoseId(c, i)
-                  /\ Rec([a |-> "IdExpire", c |-> c, k |-> i])
-                  /\ UNCHANGED <<val, pc, tgt, ph, inc, lid, nextInc, myv, dead, nloads, stored, bad>>
+                  /\ holderLost' = IF c \in dead \/ inc[c] = i THEN LoseId(c, i) ELSE holderLost
+                  /\ RE4("IdExpire", c, i, IF c \in dead THEN "dead" ELSE IF inc[c] = i THEN "late" ELSE "orphan")
+                  /\ UNCHANGED <<val, pc, tgt, fnnil, ph, inc, lid, cand, nextInc, myv, dead, nloads, stored, bad>>
 \* the process is gone: no final DEL of the liveness key, its connection (tracking, pushes) disappears
-Die(c) == /\ Live(c) /\ Can("die") /\ Spend("die") /\ Cardinality(dead) + 1 < Cardinality(Clients)
-          /\ dead' = dead \cup {c} /\ pc' = [pc EXCEPT ![c] = "dead"]
+Die(c) == /\ c \notin dead /\ Can("die") /\ Spend("die") /\ Cardinality(dead) + 1 < Cardinality(Clients)
+          /\ dead' = dead \cup {c} /\ pc' = [p \in Procs |-> IF Cl(p) = c THEN "dead" ELSE pc[p]]
           /\ trk' = [n \in Names |-> trk[n] \ {c}] /\ inflight' = [inflight EXCEPT ![c] = {}]
-          /\ Rec([a |-> "Die", c |-> c, k |-> tgt[c]])
-          /\ UNCHANGED <<val, alive, tgt, ph, inc, lid, nextInc, myv, cache, regd, gotInv, nloads, stored, holderLost, bad>>
+          /\ RE("Die", c, 0)
+          /\ UNCHANGED <<val, alive, tgt, fnnil, ph, inc, lid, cand, nextInc, myv, cache, regd, gotInv, nloads, stored, holderLost, bad>>
 \* connection lost and re-established: onInvalidation(nil)
 Disconnect(c) ==
    LET old == inc[c] IN
-   /\ Live(c) /\ Can("disc") /\ Spend("disc") /\ nextInc[c] < MaxInc
+   /\ c \notin dead /\ Can("disc") /\ Spend("disc") /\ nextInc[c] < MaxInc
    /\ inc' = [inc EXCEPT ![c] = 0]
    /\ alive' = alive \ {NI(c, old)}
    /\ holderLost' = IF old # 0 THEN LoseId(c, old) ELSE holderLost
@@ -290,48 +342,56 @@ Disconnect(c) ==
           n0 == NI(c, IF old = 0 THEN 1 ELSE old)
           S == IF wrote THEN t1[n0] \ dead ELSE {}
           ca1 == [cache EXCEPT ![c] = [n \in Names |-> NONE]]
-          gi1 == [gotInv EXCEPT ![c] = @ \cup regd[c]]
+          gi1 == [p \in Procs |-> IF Cl(p) = c THEN gotInv[p] \cup regd[c] ELSE gotInv[p]]
           rg1 == [regd EXCEPT ![c] = {}]
       IN /\ trk' = IF wrote THEN [t1 EXCEPT ![n0] = {}] ELSE t1
          /\ IF AsyncPush
               THEN /\ inflight' = [d \in Clients |-> IF d = c THEN {} ELSE IF d \in S THEN inflight[d] \cup {n0} ELSE inflight[d]]
                    /\ cache' = ca1 /\ gotInv' = gi1 /\ regd' = rg1
-              ELSE /\ cache' = ArriveCache(ca1, S, n0) /\ gotInv' = ArriveInv(gi1, S, n0) /\ regd' = ArriveReg(rg1, S, n0)
+              ELSE /\ cache' = ArriveCache(ca1, S, n0)
+                   /\ gotInv' = [p \in Procs |-> IF Cl(p) \in S /\ n0 \in rg1[Cl(p)] THEN gi1[p] \cup {n0} ELSE gi1[p]]
+                   /\ regd' = ArriveReg(rg1, S, n0)
                    /\ UNCHANGED inflight
-   /\ Rec([a |-> "Disconnect", c |-> c, k |-> 0])
-   /\ UNCHANGED <<val, pc, tgt, ph, lid, nextInc, myv, dead, nloads, stored, bad>>
+   /\ RE("Disconnect", c, 0)
+   /\ UNCHANGED <<val, pc, tgt, fnnil, ph, lid, cand, nextInc, myv, dead, nloads, stored, bad>>
 
-Next == \/ \E c \in Clients : \/ \E k \in Keys : Begin(c, k)
-                              \/ Start(c) \/ Keepalive(c) \/ Lock(c) \/ LoadOk(c) \/ LoadFail(c) \/ SetKey(c) \/ Unlock(c)
-                              \/ PhCheck(c) \/ Steal(c) \/ Woken(c) \/ Timeout(c) \/ Refresh(c) \/ Die(c) \/ Disconnect(c)
+Next == \/ \E p \in Procs : \/ \E k \in Keys : Begin(p, k) \/ BeginNil(p, k)
+                            \/ Start(p) \/ Keepalive(p) \/ KaAdopt(p) \/ Lock(p) \/ LoadOk(p) \/ LoadFail(p) \/ SetKey(p) \/ Unlock(p)
+                            \/ PhCheck(p) \/ Steal(p) \/ Woken(p) \/ Timeout(p)
+        \/ \E c \in Clients : \/ Refresh(c) \/ Die(c) \/ Disconnect(c)
                               \/ \E n \in Names : Deliver(c, n)
                               \/ \E i \in Incs : IdExpire(c, i)
         \/ \E k \in Keys : UserDel(k) \/ KeyExpire(k)
 Spec == Init /\ [][Next]_vars
 
 \* the library and the loaders make progress, pushes arrive, liveness keys of dead clients expire
-Fairness == /\ \A c \in Clients : /\ WF_vars(Start(c)) /\ WF_vars(Keepalive(c)) /\ WF_vars(Lock(c)) /\ WF_vars(LoadOk(c))
-                                  /\ WF_vars(SetKey(c)) /\ WF_vars(Unlock(c)) /\ WF_vars(PhCheck(c)) /\ WF_vars(Steal(c))
-                                  /\ WF_vars(Woken(c))
-                                  /\ \A n \in Names : WF_vars(Deliver(c, n))
+Fairness == /\ \A p \in Procs : /\ WF_vars(Start(p)) /\ WF_vars(Keepalive(p)) /\ WF_vars(KaAdopt(p)) /\ WF_vars(Lock(p))
+                                /\ WF_vars(LoadOk(p))
+                                /\ WF_vars(SetKey(p)) /\ WF_vars(Unlock(p)) /\ WF_vars(PhCheck(p)) /\ WF_vars(Steal(p))
+                                /\ WF_vars(Woken(p))
+            /\ \A c \in Clients : /\ \A n \in Names : WF_vars(Deliver(c, n))
                                   /\ \A i \in Incs : WF_vars(c \in dead /\ IdExpire(c, i))
 FairSpec == Spec /\ Fairness
 
 \* ------------------------------------------------------------------------------------------------ properties
 TypeOK == /\ \A k \in Keys : val[k].t \in {"nil", "v", "ph"}
-          /\ pc \in [Clients -> {"idle", "start", "keepalive", "lock", "load", "setkey", "unlock", "phcheck", "steal", "wait", "dead"}]
+          /\ pc \in [Procs -> {"idle", "start", "keepalive", "kaadopt", "lock", "load", "setkey", "unlock", "phcheck", "steal", "wait", "dead"}]
 NeverReturnsPlaceholder == "NeverReturnsPlaceholder" \notin bad
 ValueFromLoaderOrStore == "ValueFromLoaderOrStore" \notin bad
 LoaderOnceWhileHolderAlive == "LoaderOnceWhileHolderAlive" \notin bad
 LockStolenOnlyFromDead == "LockStolenFromLiveHolder" \notin bad
 DelOnlyOwn == "DelOnlyOwn" \notin bad
+\* every lock of a live holder that was not legitimately lost names the id the client's refresh goroutine keeps alive
+LockNamesRefreshedId ==
+   /\ "LockNamesRefreshedId" \notin bad
+   /\ \A p \in Procs : (pc[p] \in Holding /\ ~holderLost[p] /\ Live(p)) => (ph[p].b = inc[Cl(p)] /\ ph[p].a = Cl(p))
 \* a waiting Get is never parked for good: somebody will wake it (a safety view of the wake-up protocol)
-Parked(c) == /\ pc[c] = "wait" /\ c \notin dead /\ gotInv[c] \cap {NK(tgt[c]), NI(ph[c].a, ph[c].b)} = {}
-             /\ inflight[c] \cap {NK(tgt[c]), NI(ph[c].a, ph[c].b)} = {}
-NoOrphanWait == \A c \in Clients : Parked(c) => (c \in trk[NK(tgt[c])] \/ c \in trk[NI(ph[c].a, ph[c].b)])
+Parked(p) == /\ pc[p] = "wait" /\ Live(p) /\ gotInv[p] \cap {NK(tgt[p]), NI(ph[p].a, ph[p].b)} = {}
+             /\ inflight[Cl(p)] \cap {NK(tgt[p]), NI(ph[p].a, ph[p].b)} = {}
+NoOrphanWait == \A p \in Procs : Parked(p) => (Cl(p) \in trk[NK(tgt[p])] \/ Cl(p) \in trk[NI(ph[p].a, ph[p].b)])
 \* every Get of a live client returns; in particular the lock of a dead client is released and somebody else loads
-GetsReturn == \A c \in Clients : (pc[c] \notin {"idle", "dead"}) ~> (pc[c] \in {"idle", "dead"})
-DeadLockReleased == \A k \in Keys, d \in Clients, c \in Clients :
-                       (val[k].t = "ph" /\ val[k].a = d /\ d \in dead /\ c \notin dead /\ pc[c] # "idle" /\ tgt[c] = k)
+GetsReturn == \A p \in Procs : (pc[p] \notin {"idle", "dead"}) ~> (pc[p] \in {"idle", "dead"})
+DeadLockReleased == \A k \in Keys, d \in Clients, p \in Procs :
+                       (val[k].t = "ph" /\ val[k].a = d /\ d \in dead /\ Live(p) /\ pc[p] # "idle" /\ tgt[p] = k)
                           ~> ~(val[k].t = "ph" /\ val[k].a = d)
 =============================================================================
